@@ -52,11 +52,18 @@ const hp = "pkg/protocols/httpprot"
 // local; buildResponse and its caller are resolved by role. Mutants re-tried: statuses swapped in
 // the helper → R-C07-1; default replacement dropped / helper never defaults → R-C07-3; declared
 // test dropped in the shared body → R-C07-3; probe result ignored → R-C07-4.
+//
+// Round-4 seeded change C07/g (unknown-length tails extracted, read by make + io.ReadFull, short
+// body recognised by err == io.EOF || err == io.ErrUnexpectedEOF): the reads are classified by role
+// (declared-length read = ReadFull into ContentLength bytes; unknown-length read = ReadAll through
+// LimitReader or ReadFull into limit bytes) and R-C07-4 gained "only a clean end of input completes
+// a body of unknown length". Same kind, also reported: ReadAll form swallowing ErrUnexpectedEOF; the
+// short test before the error test. The same extraction with ReadAll kept stays silent.
 func c07(c *core.Ctx) string {
 	c.Rule("R-C07-1", "fetch before dispatch: every path of serveHTTP to a handler passes req.FetchPayload with a nil error; ErrRequestEntityTooLarge ⇒ 413 response and return; any other error ⇒ 400 and return")
 	c.Rule("R-C07-2", "effective limit: the limit handed to FetchPayload is the specific (path / pool) value, replaced by the general (server / proxy) value exactly when the specific one is 0")
 	c.Rule("R-C07-3", "declared length (both FetchPayload): 0 is replaced by the default limit first; only a negative limit creates a stream; the buffer allocation and ReadFull are reachable only with ContentLength ≤ limit; a short read is reported (io.EOF mapped to ErrUnexpectedEOF, the read error returned)")
-	c.Rule("R-C07-4", "unknown length (both FetchPayload): the body is read through io.LimitReader(body, limit); when the limit was reached an extra-byte probe with io.Copy decides: extra bytes ⇒ too-large error, otherwise the probe's error (nil at exactly the limit)")
+	c.Rule("R-C07-4", "unknown length (both FetchPayload): the body is read through io.LimitReader(body, limit); when the limit was reached an extra-byte probe with io.Copy decides: extra bytes ⇒ too-large error, otherwise the probe's error (nil at exactly the limit); success is returned only with the read's error found nil — an error the source also reports for a body cut mid-stream (io.ErrUnexpectedEOF) never counts as 'body complete'")
 	c.Rule("R-C07-5", "oversized response withheld: in ServerPool.buildResponse a failed resp.FetchPayload returns the error without SetOutputResponse; doHandle turns it into a 5xx serverPoolError (408 only when the request context's deadline is known to have expired)")
 	c.NotDecided = []string{"the off-by-one comparison exactly at the limit (numeric)", "what net/http does with unread request bodies", "stream mode contents"}
 
@@ -280,10 +287,13 @@ func (t *muxSrc) setVar(st *flow.State, l ast.Expr, v flow.Val) {
 	st.Set(t.p+"src:"+r, v)
 }
 
-func (t *muxSrc) await(st *flow.State, slot string, fo *types.Func) {
-	st.Set(t.p+"ret:"+fo.FullName(), flow.Unknown)
-	st.Set(t.p+"returned:"+fo.FullName(), flow.Unknown)
-	st.Set(t.p+"pend:"+slot+"\x00"+fo.FullName(), flow.True)
+// muxRetSlot names result i of a function in the event keys.
+func muxRetSlot(fo *types.Func, i int) string { return sprintf("%s#%d", fo.FullName(), i) }
+
+func (t *muxSrc) await(st *flow.State, slot string, fo *types.Func, i int) {
+	st.Set(t.p+"ret:"+muxRetSlot(fo, i), flow.Unknown)
+	st.Set(t.p+"returned:"+muxRetSlot(fo, i), flow.Unknown)
+	st.Set(t.p+"pend:"+slot+"\x00"+muxRetSlot(fo, i), flow.True)
 }
 
 func (t *muxSrc) onNode(st *flow.State, n ast.Node) {
@@ -299,8 +309,10 @@ func (t *muxSrc) onNode(st *flow.State, n ast.Node) {
 			for _, l := range x.Lhs {
 				t.setVar(st, l, flow.Unknown)
 			}
-			if id := muxIdentOf(x.Lhs[0]); id != nil && id.Name != "_" {
-				t.await(st, t.f.Render(id), t.inlined(c07CallOf(x.Rhs[0])))
+			for i, l := range x.Lhs {
+				if id := muxIdentOf(l); id != nil && id.Name != "_" {
+					t.await(st, t.f.Render(id), t.inlined(c07CallOf(x.Rhs[0])), i)
+				}
 			}
 		case len(x.Lhs) == len(x.Rhs):
 			vals := make([]flow.Val, len(x.Rhs))
@@ -334,26 +346,29 @@ func (t *muxSrc) onNode(st *flow.State, n ast.Node) {
 		if fo == nil {
 			return
 		}
-		name := fo.FullName()
+		nres := fo.Type().(*types.Signature).Results().Len()
 		switch {
+		case len(x.Results) == 1 && t.inlined(c07CallOf(x.Results[0])) != nil:
+			// return h(..): every result slot waits for the callee's
+			callee := t.inlined(c07CallOf(x.Results[0]))
+			for i := 0; i < nres; i++ {
+				st.Set(t.p+"ret:"+muxRetSlot(fo, i), flow.Unknown)
+				st.Set(t.p+"returned:"+muxRetSlot(fo, i), flow.Unknown)
+				t.await(st, "ret:"+muxRetSlot(fo, i), callee, i)
+			}
 		case len(x.Results) >= 1:
-			if len(x.Results) == 1 {
-				if callee := t.inlined(c07CallOf(x.Results[0])); callee != nil {
-					st.Set(t.p+"ret:"+name, flow.Unknown)
-					st.Set(t.p+"returned:"+name, flow.Unknown)
-					t.await(st, "ret:"+name, callee)
-					return
+			for i, r := range x.Results {
+				if len(x.Results) != nres {
+					break
 				}
+				st.Set(t.p+"ret:"+muxRetSlot(fo, i), t.get(st, r))
+				st.Set(t.p+"returned:"+muxRetSlot(fo, i), flow.True)
 			}
-			st.Set(t.p+"ret:"+name, t.get(st, x.Results[0]))
-			st.Set(t.p+"returned:"+name, flow.True)
 		default:
-			v := flow.Unknown
-			if ids := t.vf.results[fo]; len(ids) >= 1 {
-				v = t.get(st, ids[0])
+			for i, id := range t.vf.results[fo] {
+				st.Set(t.p+"ret:"+muxRetSlot(fo, i), t.get(st, id))
+				st.Set(t.p+"returned:"+muxRetSlot(fo, i), flow.True)
 			}
-			st.Set(t.p+"ret:"+name, v)
-			st.Set(t.p+"returned:"+name, flow.True)
 		}
 	}
 }
@@ -518,7 +533,7 @@ func c07LimitIn(c *core.Ctx, entry *flow.Func, cons string, fetch *ast.CallExpr,
 		}
 		for _, ex := range res.Exits {
 			if ex.Kind == flow.ExitReturn {
-				uses = append(uses, use{ex.State, ex.State.Get("ev:ret:" + fo.Origin().FullName())})
+				uses = append(uses, use{ex.State, ex.State.Get("ev:ret:" + muxRetSlot(fo.Origin(), 0))})
 			}
 		}
 	case *ast.SelectorExpr:
@@ -714,6 +729,7 @@ func c07Fetch(c *core.Ctx, recv string) {
 		})
 	}
 	var mk, readFull, readAll, probe *ast.CallExpr
+	var makes, fulls []*ast.CallExpr
 	var streamSets []ast.Node
 	streamF := structField(c, hp, recv, "stream")
 	for _, g := range fns {
@@ -722,10 +738,10 @@ func c07Fetch(c *core.Ctx, recv string) {
 			switch {
 			case full == "builtin.make":
 				if tv, ok := info.Types[call]; ok && tv.Type != nil && tv.Type.String() == "[]byte" {
-					mk = call
+					makes = append(makes, call)
 				}
 			case full == "io.ReadFull":
-				readFull = call
+				fulls = append(fulls, call)
 			case full == "io.ReadAll" || full == "io/ioutil.ReadAll":
 				readAll = call
 			case (full == "io.Copy" || full == "io.CopyN" || full == "io.CopyBuffer") && len(call.Args) >= 2:
@@ -752,13 +768,54 @@ func c07Fetch(c *core.Ctx, recv string) {
 			return true
 		})
 	}
-	if mk == nil || readFull == nil || readAll == nil {
-		c.Errorf("R-C07-3: anchor: %s (helpers included) lacks make/ReadFull/ReadAll (make=%v ReadFull=%v ReadAll=%v)", cons, mk != nil, readFull != nil, readAll != nil)
+	// the reads by role: the declared-length read fills a buffer of ContentLength bytes with
+	// io.ReadFull; the unknown-length read is io.ReadAll(io.LimitReader(body, limit)) or io.ReadFull
+	// into a buffer of limit bytes
+	bufferOf := func(rf *ast.CallExpr) *ast.CallExpr {
+		if len(rf.Args) != 2 {
+			return nil
+		}
+		for _, v := range vf.flat(rf.Args[1]) {
+			if mc, ok := v.expr.(*ast.CallExpr); ok && v.root == nil {
+				for _, m := range makes {
+					if m == mc {
+						return m
+					}
+				}
+			}
+		}
+		return nil
+	}
+	var mkU, readFullU *ast.CallExpr // unknown-length read in the ReadFull form
+	for _, rf := range fulls {
+		m := bufferOf(rf)
+		switch {
+		case m != nil && len(m.Args) >= 2 && isLim(m.Args[1]) && !isCL(m.Args[1]):
+			mkU, readFullU = m, rf
+		case m != nil && (mk == nil || (len(m.Args) >= 2 && isCL(m.Args[1]))):
+			mk, readFull = m, rf
+		case mk == nil:
+			readFull = rf
+		}
+	}
+	if mk == nil && len(makes) > 0 && mkU == nil {
+		mk = makes[len(makes)-1]
+	}
+	if readFull == nil && readFullU == nil && len(fulls) > 0 {
+		readFull = fulls[len(fulls)-1]
+	}
+	unknownRead, fullForm := readAll, false
+	if unknownRead == nil && readFullU != nil {
+		unknownRead, fullForm = readFullU, true
+	}
+	if mk == nil || readFull == nil || unknownRead == nil {
+		c.Errorf("R-C07-3: anchor: %s (helpers included) lacks the declared-length read (make + io.ReadFull) or the unknown-length read (io.ReadAll / io.ReadFull into a limit-sized buffer) (make=%v ReadFull=%v unknown-length read=%v)", cons, mk != nil, readFull != nil, unknownRead != nil)
 		return
 	}
+	_ = mkU
 	// result variables
 	fullErrs := muxResultHolders(vf, readFull, 1)
-	var payloadVar, probeN *ast.Ident
+	var payloadVar, probeN, uErr *ast.Ident
 	for _, g := range fns {
 		ast.Inspect(g.Body, func(n ast.Node) bool {
 			as, ok := n.(*ast.AssignStmt)
@@ -766,8 +823,11 @@ func c07Fetch(c *core.Ctx, recv string) {
 				return true
 			}
 			switch ast.Unparen(as.Rhs[0]) {
-			case ast.Expr(readAll):
-				payloadVar = muxIdentOf(as.Lhs[0])
+			case ast.Expr(unknownRead):
+				if !fullForm {
+					payloadVar = muxIdentOf(as.Lhs[0])
+				}
+				uErr = muxIdentOf(as.Lhs[1])
 			case ast.Expr(probe):
 				if probe != nil {
 					probeN = muxIdentOf(as.Lhs[0])
@@ -781,7 +841,27 @@ func c07Fetch(c *core.Ctx, recv string) {
 		probeErrs = muxResultHolders(vf, probe, 1)
 	}
 	defaulted := "ev:defaulted"
-	res := muxAnalyzeInl(c, f, flow.Config{NoHavoc: true,
+	// which error variables hold the too-large sentinel (handed to helpers as a parameter, returned
+	// among several results)
+	sentinelName := "ErrRequestEntityTooLarge"
+	if recv == "Response" {
+		sentinelName = "ErrResponseEntityTooLarge"
+	}
+	sent := newMuxSrc(f, fns, "sn:", func(e ast.Expr) flow.Val {
+		id := muxIdentOf(e)
+		if id == nil {
+			if sel, ok := e.(*ast.SelectorExpr); ok {
+				id = sel.Sel
+			}
+		}
+		if id != nil && id.Name == sentinelName {
+			if v, ok := info.Uses[id].(*types.Var); ok && v.Parent() == f.Pkg.Types.Scope() {
+				return flow.True
+			}
+		}
+		return flow.Unknown
+	}, inlineSamePkg(f, muxObjList(opaque)...))
+	res := muxAnalyzeInl(c, f, sent.config(flow.Config{NoHavoc: true,
 		OnNode: func(st *flow.State, n ast.Node) {
 			as, ok := n.(*ast.AssignStmt)
 			if !ok || len(as.Lhs) != 1 || len(as.Rhs) != 1 {
@@ -799,13 +879,13 @@ func c07Fetch(c *core.Ctx, recv string) {
 			switch call {
 			case readFull:
 				st.Set("ev:readfull", flow.True)
-			case readAll:
+			case unknownRead:
 				st.Set("ev:readall", flow.True)
 			case probe:
 				st.Set("ev:probed", flow.True)
 			}
 		},
-	}, muxObjList(opaque)...)
+	}), muxObjList(opaque)...)
 	if res == nil {
 		return
 	}
@@ -855,7 +935,7 @@ func c07Fetch(c *core.Ctx, recv string) {
 		}
 	}
 	check(mk)
-	check(readAll)
+	check(unknownRead)
 	for _, s := range streamSets {
 		check(s)
 	}
@@ -873,7 +953,7 @@ func c07Fetch(c *core.Ctx, recv string) {
 	if len(streamSets) == 0 {
 		c.Violate("R-C07-3", cons+"|stream iff negative limit", pos(c, f.Body), "no stream mode: -1 no longer streams a body of any size")
 	} else {
-		for _, at := range []ast.Node{mk, readAll} {
+		for _, at := range []ast.Node{mk, unknownRead} {
 			for _, st := range res.At[at] {
 				if limFact(st, "lt:", "<0") != flow.False {
 					bad, why = st, "the body is buffered although the limit may be negative (stream mode)"
@@ -930,7 +1010,7 @@ func c07Fetch(c *core.Ctx, recv string) {
 				all = false
 			}
 		}
-		if all {
+		if all || sent.get(ex.State, r) == flow.True {
 			return true
 		}
 		// a (named) result variable known to hold the sentinel
@@ -995,15 +1075,51 @@ func c07Fetch(c *core.Ctx, recv string) {
 	}
 
 	// ---- R-C07-4 chunked path
-	limOK := false
-	if len(readAll.Args) == 1 {
+	readAll = unknownRead
+	limOK := fullForm // io.ReadFull into make([]byte, limit) is bounded by construction
+	if !fullForm && len(readAll.Args) == 1 {
 		if lr, ok := vf.through(readAll.Args[0]).(*ast.CallExpr); ok && calleeFull(f, lr) == "io.LimitReader" && len(lr.Args) == 2 && isLim(lr.Args[1]) {
 			limOK = true
 		}
 	}
-	c.Check(limOK, "R-C07-4", cons+"|unknown length read through LimitReader(limit)", pos(c, readAll), "io.ReadAll(io.LimitReader(body, max))",
+	c.Check(limOK, "R-C07-4", cons+"|unknown length read through LimitReader(limit)", pos(c, readAll), "the unknown-length read is bounded by the limit (io.ReadAll(io.LimitReader(body, max)) or io.ReadFull into max bytes)",
 		"a body of unknown length is read without io.LimitReader(body, max): a chunked body of any size is buffered in memory")
-	if probe == nil || probeN == nil || len(probeErrs) == 0 || payloadVar == nil {
+	// what counts as "the body is complete": only the bounded reader's own end of input. An error
+	// the SOURCE also produces for a body cut mid-stream (io.ErrUnexpectedEOF from the chunked
+	// reader) must stay an error, and a failed read must not end in success.
+	if uErr != nil {
+		var badC *flow.State
+		whyC := ""
+		nnil := 0
+		for _, ex := range res.Exits {
+			rexp := muxRetExpr(f, vf, ex)
+			if ex.Kind != flow.ExitReturn || !ex.State.Is("ev:readall", flow.True) || rexp == nil {
+				continue
+			}
+			st := ex.State
+			isNilRet := info.Types[rexp].IsNil()
+			if id := muxIdentOf(rexp); id != nil && !isNilRet && st.Is(f.NilKey(id), flow.True) {
+				isNilRet = true
+			}
+			if !isNilRet {
+				continue
+			}
+			nnil++
+			ur := f.Render(uErr)
+			switch {
+			case st.Is("nil:"+ur, flow.True):
+			case fullForm && st.Is("eq:"+ur+"==@io.EOF", flow.True):
+				// io.ReadFull read nothing: the body is empty and complete
+			case st.Is("eq:"+ur+"==@io.ErrUnexpectedEOF", flow.True):
+				badC, whyC = st, "io.ErrUnexpectedEOF from the read of a body of unknown length is treated as 'the body is complete': the source (the chunked reader) reports the same error for a body cut mid-stream, so a truncated body is accepted as a success instead of an error status"
+			default:
+				badC, whyC = st, "success is returned without the error of the read of a body of unknown length having been found nil: a failed or truncated read ends as a complete body"
+			}
+		}
+		c.Check(badC == nil && nnil > 0, "R-C07-4", cons+"|only a clean end of input completes a body of unknown length", pos(c, readAll),
+			sprintf("%d successful exits after the read, all with its error nil (or io.EOF of an empty io.ReadFull)", nnil), whyC+map[bool]string{true: "no successful exit after the unknown-length read", false: ""}[nnil == 0], witness(badC)...)
+	}
+	if probe == nil || probeN == nil || len(probeErrs) == 0 || (payloadVar == nil && !fullForm) {
 		c.Violate("R-C07-4", cons+"|extra-byte probe", pos(c, readAll), "after the limited read there is no extra-byte probe into io.Discard: a chunked body larger than the limit is silently truncated to the limit and forwarded")
 		return
 	}
@@ -1013,8 +1129,14 @@ func c07Fetch(c *core.Ctx, recv string) {
 	}
 	// facts
 	// "fewer bytes than the limit were read": len(payload) < limit, the length possibly in a local
-	lenRenders := map[string]bool{"len(" + f.Render(payloadVar) + ")": true}
+	lenRenders := map[string]bool{}
+	if payloadVar != nil {
+		lenRenders["len("+f.Render(payloadVar)+")"] = true
+	}
 	for _, g := range fns {
+		if payloadVar == nil {
+			break
+		}
 		ast.Inspect(g.Body, func(n ast.Node) bool {
 			if id, ok := n.(*ast.Ident); ok {
 				if _, isVar := vf.obj(id).(*types.Var); isVar {
@@ -1027,6 +1149,11 @@ func c07Fetch(c *core.Ctx, recv string) {
 		})
 	}
 	short := func(st *flow.State) bool {
+		if fullForm && uErr != nil {
+			// io.ReadFull: fewer bytes than the buffer ⇔ it reported the end of input
+			ur := f.Render(uErr)
+			return st.Is("eq:"+ur+"==@io.EOF", flow.True) || st.Is("eq:"+ur+"==@io.ErrUnexpectedEOF", flow.True)
+		}
 		for _, fact := range st.Facts() {
 			if !strings.HasPrefix(fact, "lt:") || !strings.HasSuffix(fact, "=T") {
 				continue
